@@ -162,7 +162,7 @@ func (s *st) freeOp() {
 	case 0:
 		val := s.pickToken()
 		// presenter: one of the two grant owners, or a registered public client that owns nothing
-		c := []string{s.client[0], s.client[1], "c3"}[zz.Choice("presenter", 3)]
+		c := []string{s.client[0], s.client[1], "C1"}[zz.Choice("presenter", 3)]
 		s.refresh(val, c)
 	case 1:
 		d := zz.Int("advance", 0, int64(45*24*time.Hour))
@@ -172,8 +172,8 @@ func (s *st) freeOp() {
 
 func run(maxPrefix, freeOps int) {
 	s := &st{w: world.NewX(world.XOptions{Hybrid: true}), l: &world.Ledger{}, client: [2]string{"c1", "c2"}}
-	s.w.Store.Clients["c3"] = &fosite.DefaultClient{ID: "c3", Public: true, GrantTypes: []string{"authorization_code", "refresh_token"},
-		RedirectURIs: []string{"https://c3.example/cb"}, ResponseTypes: []string{"code"}, Scopes: []string{"offline", "photos"}}
+	s.w.Store.Clients["C1"] = &fosite.DefaultClient{ID: "C1", Public: true, GrantTypes: []string{"authorization_code", "refresh_token"},
+		RedirectURIs: []string{"https://cx.example/cb"}, ResponseTypes: []string{"code"}, Scopes: []string{"offline", "photos"}}
 	s.start(0, zz.Choice("origin", 3))
 	s.start(1, 0)
 	for i, n := 0, zz.Choice("prefix", maxPrefix+1); i < n; i++ {
@@ -186,11 +186,11 @@ func run(maxPrefix, freeOps int) {
 	}
 }
 
-// ZZ_C04_rotation: rotation prefix <= 1 + two free operations (quick); prefix <= 2 + three free operations (thorough, ~93k paths).
+// ZZ_C04_rotation: rotation prefix <= 2 + two free operations (quick); prefix <= 2 + three free operations (thorough).
 func ZZ_C04_rotation() {
 	if zz.Thorough() {
 		run(2, 3)
 	} else {
-		run(1, 2)
+		run(2, 2)
 	}
 }
